@@ -105,11 +105,11 @@ reg(Prop('C16', pi.gen_item_C16, pi.eval_C16, 2500, 30000,
          "each seeded case is transformed by a random axis permutation, a flip, an inserted unit axis, a NaN / below-threshold border, an affine "
          "map a*v+b (a a power of two) with mapped min_value / min_delta, a strictly increasing map (no pruning) and a raised threshold; "
          "hierarchy compared on mapped pixels for distinct values, trunk regions / assigned pixels / leaf count for ties; every run is also "
-         "compared with the model", ASSUME_COMPUTE, ['C16_run_equivariant', 'C16_similarity_regions', 'C16_similarity_parent', 'C16_similarity_counts', 'C16_similarity_trunk', 'C16_affine_builtin', 'C16_rename_builtin']))
+         "compared with the model", ASSUME_COMPUTE, ['C16_run_equivariant', 'C16_similarity_regions', 'C16_similarity_parent', 'C16_similarity_counts', 'C16_similarity_trunk', 'C16_affine_builtin', 'C16_rename_builtin', 'C16_axis_permutation', 'C16_flip', 'C16_unit_axis', 'C16_pad', 'C16_threshold_restriction']))
 reg(Prop('C17', pi.gen_item_C17, pi.eval_C17, 3000, 40000,
          "arrays in 1-4 dimensions with axes of length 1-6, a random non-empty subset of periodic axes (passed as int or list), cyclic shifts "
          "by 1, n-1, n and a random amount along a periodic axis; contour predicate with an independent adjacency (wrap on declared axes "
-         "only), model correspondence", ASSUME_COMPUTE, ['C17_axis', 'C17_neighbours', 'C17_grid_symmetric', 'C17_shift_automorphism']))
+         "only), model correspondence", ASSUME_COMPUTE, ['C17_axis', 'C17_neighbours', 'C17_grid_symmetric', 'C17_shift_automorphism', 'C17_shift_invariance']))
 reg(Prop('C20', pi.gen_item_C20, pi.eval_C20, 4000, 40000,
          "pairs of dendrograms: same call twice, different min_delta/min_npix, different user criteria, one pixel changed, NaN mask changed, "
          "saved-and-loaded copy, pruned copy, reshaped data, different min_value, non-dendrogram objects; both argument orders",
@@ -159,3 +159,10 @@ reg(Prop('C19', pv.gen_item_C19, pv.eval_C19, 320, 3000,
 for _p, _b in (('C19', 8), ('C12', 30), ('C15', 30), ('C09', 60), ('C18', 60)):
     PROPS[_p].shrink_budget = _b
 PROPS['C19'].max_kinds = 2
+
+import gen as _gen  # noqa: E402
+
+for _p in ('C01', 'C02', 'C03', 'C04', 'C05'):
+    PROPS[_p].exhaustive = (_gen.EXHAUSTIVE_TOTAL, lambda i: {'case': _gen.exhaustive_compute_case(i), 'ops': []},
+                            'all value orderings on grids %r and all arrays over a 3-letter alphabet on grids %r, each under (min_delta, min_npix) in %r'
+                            % (_gen.PERM_GRIDS, _gen.ALPHA_GRIDS, _gen.PARAM_SETS))
